@@ -9,11 +9,11 @@ CONC_NOTE = ("Trusted base: the reference interpreter for expected values, salsa
              "thorough tier.")
 ENGINES = [
     {"name": "E-sched", "path": "/verif/harness (svh run --sub sched, cfg sched = salsa feature shuttle)", "serves_properties":
-     ["C08", "C11", "C16", "C17", "C18", "C19", "C24"], "kind_free_text":
+     ["C08", "C09", "C11", "C16", "C17", "C18", "C19", "C24"], "kind_free_text":
      "schedule fuzzing of the real code with shuttle's random / PCT / uniform-random-walk schedulers; monitors are the oracle; exact "
      "deadlock detection and a step bound; deterministic replay from the case seed"},
     {"name": "E-os", "path": "/verif/harness (svh run --sub os, cfg native / tsan)", "serves_properties":
-     ["C08", "C14", "C16", "C17", "C18", "C19", "C20", "C21", "C24"], "kind_free_text":
+     ["C08", "C09", "C14", "C16", "C17", "C18", "C19", "C20", "C21", "C22", "C23", "C24"], "kind_free_text":
      "real OS threads on database clones with seeded delay injection (yield / spin / sleep profiles) at feature-guarded failpoints "
      "between salsa's critical sections; watchdog + protocol-trace analysis for stuck states; ThreadSanitizer build in the thorough tier"},
     {"name": "E-single", "path": "/verif/harness (svh run, native cfg)", "serves_properties":
@@ -64,7 +64,9 @@ META = {
              VOL + "The identity of every created struct is recorded (salsa::plumbing::AsId) and compared with a model keyed by (creator key, "
              "identity field value, per-identity occurrence): preserved across creator re-execution, distinct otherwise; structs no longer "
              "created must be discarded (DidDiscard) and must disappear from Ent::ingredient().entries(); values of functions keyed by "
-             "structs vs the reference."),
+             "structs vs the reference. A third of the cases run with identity fields whose hashes all collide (two identity fields, the "
+             "second derived from the first): there the monitor is 'an id (slot, generation) never denotes two identity values' plus a "
+             "consistency check of the identity fields on every read."),
     "C07": E("differential value oracle with key-digest results under slot churn",
              VOL + "Interned types with revisions=1..3 and a constant hash (one shard, reuse almost every revision) and makers that toggle "
              "creation keep the free list and the interned LRU hot. Every struct/interned/tuple keyed function returns a digest of its "
@@ -74,7 +76,9 @@ META = {
              VOL + "Every DidReuseInternedValue is checked against a model of the retention rule: type not immortal, slot only ever interned by "
              "LOW-durability activations, slot not used (interned or revalidated through a dependent, observed with hook `InternedDependencyChecked`) "
              "in any of the last `revisions` revisions that used the type, and at least that many such revisions exist. Identity continuity "
-             "of non-reclaimable values is checked across revisions. The model is deliberately no stricter than the code (property is an 'only if')."),
+             "of non-reclaimable values is checked across revisions. The model is deliberately no stricter than the code (property is an 'only if'). "
+             "The same model also judges the merged logs of the concurrent interning family (2-4 threads interning in a fresh revision after a "
+             "pre-history of several revisions) under shuttle schedules and on OS threads.", None, "E-single + E-sched + E-os"),
     "C10": E("differential value oracle + no-execution-after-specify monitor + expected panics",
              VOL + "Creators conditionally specify values (optionally after reading the function on their own struct, twice, or on foreign "
              "structs). q_spec results are compared with the reference under creator-first and reader-first orders and across revisions in "
